@@ -15,6 +15,7 @@ import (
 	"fmt"
 	"io/fs"
 	"os"
+	"os/exec"
 	"path/filepath"
 	"runtime"
 	"sort"
@@ -94,6 +95,22 @@ func getCorpus(seed uint64) (*corpusTree, error) {
 			}
 			c.tree.Files = append(c.tree.Files, gogen.File{Rel: pk + "/a.go", Pkg: pk, Src: gogen.RenderFile(pk, fs, false, false), Funcs: fs})
 		}
+	}
+	if seed%6 == 5 {
+		// a string table beyond the analyser's literal budget (40 x 4000 bytes)
+		var sb strings.Builder
+		sb.WriteString("package strtab\n\nfunc SharedTable(i int) string {\n\ttab := []string{\n")
+		sr := gogen.NewRand(seed ^ 0x57ab)
+		for k := 0; k < 40; k++ {
+			var w strings.Builder
+			for w.Len() < 4000 {
+				w.WriteString(sr.Pick("alpha", "beta-9", "GET /", "k3y", "zz", "http://203.0.113.7/x", "0123456789", "Q"))
+				w.WriteByte(byte('a' + sr.Intn(26)))
+			}
+			fmt.Fprintf(&sb, "\t\t%q,\n", w.String()[:4000])
+		}
+		sb.WriteString("\t}\n\tif i >= 0 && i < len(tab) {\n\t\treturn tab[i]\n\t}\n\treturn \"\"\n}\n")
+		c.tree.Files = append(c.tree.Files, gogen.File{Rel: "strtab/t.go", Pkg: "strtab", Src: sb.String()})
 	}
 	if err := write("go.mod", c.tree.GoMod("./depmod")); err != nil {
 		return nil, err
@@ -633,6 +650,24 @@ func runC10(t *vs.Tape, cfg map[string]string) (res vs.Result) {
 			break
 		}
 	}
+	// "from run to run" also means from process to process: a fraction of the
+	// evaluations repeats the command in a fresh operating-system process (this
+	// binary re-executed, real file system, no simulator) and compares the bytes
+	if res.Violation == nil && t.Chance("fresh.process", 1, 5) {
+		sp := c10ChildSpec{Cmd: cmd, Target: target, DB: db, Strict: strict, WithScan: withScan, Threshold: threshold, Exact: exact,
+			DepsDepth: depsDepth, ScanDeps: scanDeps, PairOld: ct.pairOld, PairNew: ct.pairNew}
+		out, failed, infra := c10Spawn(sp)
+		if infra != "" {
+			res.Infra = infra
+			return
+		}
+		c.Inc("fresh_process_executions")
+		if failed != (ref.err != nil) {
+			res.Violation = vs.Violationf("C10/error-differs/"+cmd, "%s on corpus %d: reference returned %v, a fresh process returned error=%v", cmd, seed, ref.err, failed)
+		} else if !bytes.Equal(out, ref.out) {
+			res.Violation = vs.Violationf("C10/output-differs-across-processes/"+cmd, "%s on corpus %d (%s backend): output of a fresh process is not byte-identical to the run inside this process on the same input; %s", cmd, seed, backend, firstDiff(ref.out, out))
+		}
+	}
 	// the report must be JSON
 	if res.Violation == nil && ref.err == nil && !json.Valid(ref.out) {
 		res.Violation = vs.Violationf("C10/not-json", "%s output is not valid JSON", cmd)
@@ -645,7 +680,84 @@ func runC10(t *vs.Tape, cfg map[string]string) (res vs.Result) {
 	return
 }
 
+type c10ChildSpec struct {
+	Cmd, Target, DB, DepsDepth, PairOld, PairNew, Out string
+	Strict, WithScan, Exact, ScanDeps                  bool
+	Threshold                                          float64
+}
+
+func c10Child(specJSON string) {
+	var sp c10ChildSpec
+	if err := json.Unmarshal([]byte(specJSON), &sp); err != nil {
+		fmt.Fprintln(os.Stderr, "c10child: bad spec:", err)
+		os.Exit(3)
+	}
+	var err error
+	out := captureStdout(func() {
+		switch sp.Cmd {
+		case "check":
+			d := ""
+			if sp.WithScan {
+				d = sp.DB
+			}
+			err = RunCheckLogic(RealFileSystem{}, sp.Target, sp.Strict, sp.WithScan, d)
+		case "scan":
+			opts := models.ScanOptions{DBPath: sp.DB, Threshold: sp.Threshold, ExactOnly: sp.Exact, DepsDepth: sp.DepsDepth, ScanDeps: sp.ScanDeps}
+			err = RunScanLogic(RealFileSystem{}, RealPackageLoader{}, sp.Target, opts)
+		default:
+			err = RunDiffLogic(RealFileSystem{}, sp.PairOld, sp.PairNew)
+		}
+	})
+	status := "ok\n"
+	if err != nil {
+		status = "error\n"
+	}
+	if werr := os.WriteFile(sp.Out, append([]byte(status), out...), 0o600); werr != nil {
+		fmt.Fprintln(os.Stderr, "c10child: write:", werr)
+		os.Exit(3)
+	}
+}
+
+func c10Spawn(sp c10ChildSpec) (out []byte, failed bool, infra string) {
+	exe, err := os.Executable()
+	if err != nil {
+		return nil, false, err.Error()
+	}
+	f, err := os.CreateTemp(workDir(), "c10child-*.out")
+	if err != nil {
+		return nil, false, err.Error()
+	}
+	f.Close()
+	defer os.Remove(f.Name())
+	sp.Out = f.Name()
+	spec, _ := json.Marshal(sp)
+	cmd := exec.Command(exe, "-test.run", "^TestVerifC10$", "-test.timeout", "600s")
+	for _, e := range os.Environ() {
+		if strings.HasPrefix(e, "VERIF_") && !strings.HasPrefix(e, "VERIF_WORKDIR=") {
+			continue
+		}
+		cmd.Env = append(cmd.Env, e)
+	}
+	cmd.Env = append(cmd.Env, "VERIF_C10CHILD="+string(spec))
+	if b, err := cmd.CombinedOutput(); err != nil {
+		return nil, false, fmt.Sprintf("child process: %v: %.300s", err, string(b))
+	}
+	raw, err := os.ReadFile(f.Name())
+	if err != nil {
+		return nil, false, err.Error()
+	}
+	i := bytes.IndexByte(raw, '\n')
+	if i < 0 {
+		return nil, false, "child output malformed"
+	}
+	return raw[i+1:], string(raw[:i]) == "error", ""
+}
+
 func TestVerifC10(t *testing.T) {
+	if spec := os.Getenv("VERIF_C10CHILD"); spec != "" {
+		c10Child(spec)
+		return
+	}
 	cliT = t
 	defer cleanupCorpus()
 	vs.Main(t, vs.Engine{Property: "C10", Name: "clisim", MaxTape: 20000, Run: runC10})
